@@ -332,7 +332,7 @@ class Power(Operator):
 class Abs(Operator):
     """Absolute value."""
 
-    __slots__ = ()
+    __slots__ = ("_initialised",)
 
     def __new__(cls, a):
         """Create a new Abs."""
@@ -346,11 +346,18 @@ class Abs(Operator):
         if isinstance(a, ScalarValue):
             return as_ufl(abs(a._value))
 
-        return Operator.__new__(cls)
+        # Construct a new instance to be initialised
+        self = Operator.__new__(cls)
+        self._initialised = False
+        return self
 
     def __init__(self, a):
         """Initialise."""
+        if self._initialised:
+            # `__new__` returned an existing Abs (abs(abs(a)) is abs(a))
+            return
         Operator.__init__(self, (a,))
+        self._initialised = True
 
     def evaluate(self, x, mapping, component, index_values):
         """Evaluate."""
